@@ -27,6 +27,7 @@
 #include "common/jmodel.hpp"
 
 #include <array>
+#include <type_traits>
 
 using namespace Qentem;
 
@@ -427,6 +428,9 @@ struct ValOps<Value<char>> {
     static bool is_num(const VT *v, double d) { return v != nullptr && v->IsNumber() && v->GetNumber() == d; }
     static bool is_str(const VT *v, uint32_t seed) { return v != nullptr && v->IsString() && v->GetString() != nullptr && ValOps<QStr>::matches(*v->GetString(), seed); }
     static bool matches(const VT &v, int64_t m) {
+        if (m == -2) {
+            return true; // a value the model does not describe (taken over from a nested object)
+        }
         if (m < 0) {
             return v.IsUndefined();
         }
@@ -932,6 +936,30 @@ struct Runner {
         }
         Model copy    = m[o.b];
         copy.may_tomb = false; // copies hold live entries only
+        if constexpr (std::is_same<V, Value<char>>::value) {
+            // the table copy-assigned from a table that lives inside one of its own values (t = *t.GetValue(k)->GetObject()): the
+            // source is destroyed with the old content unless the assignment copies it first
+            if (cs.gen2 != 0 && how == 0 && (o.variant & 0x80u) != 0) {
+                for (auto &it : m[o.a].items) {
+                    if (it.second >= 0 && (uint32_t(it.second) % 5u) == 3u) {
+                        const V *holder = dst.GetValue(it.first.data(), SizeT(it.first.size()));
+                        if (holder != nullptr && holder->IsObject() && holder->GetObject() != nullptr) {
+                            const std::string held = it.first; // (the model entry goes away below)
+                            dst = *holder->GetObject();
+                            Model nm;
+                            nm.items = {{"n", -2}, {"s", -2}, {"o", -2}};
+                            m[o.a]   = nm;
+                            note     = "copy-assigned from the object inside its own entry '" + pbt::enc_bytes(held) + "'";
+                            f_alias  = true;
+                            add_universe("n");
+                            add_universe("s");
+                            add_universe("o");
+                            return;
+                        }
+                    }
+                }
+            }
+        }
         switch (how) {
             case 0: {
                 const Table &csrc = src;
